@@ -1338,7 +1338,6 @@ where
     /// Send all stored packets for retransmission
     fn send_stored(&mut self) -> Vec<GenericEvent<PacketIdType>> {
         let mut events = Vec::new();
-        let mut resent: u16 = 0;
         self.store.for_each(|packet| {
             if packet.size() > self.maximum_packet_size_send as usize {
                 let packet_id = packet.packet_id();
@@ -1354,16 +1353,17 @@ where
                 packet: packet.clone().into(),
                 release_packet_id_if_send_error: None,
             });
-            resent = resent.saturating_add(1);
             true // Keep in store
         });
-        // retransmitted exchanges occupy the peer's Receive Maximum window like new ones,
-        // and so do the exchanges that still have to send their PUBREL on this connection
+        // every exchange that is still awaited on the resumed session occupies the peer's
+        // Receive Maximum window: the retransmitted ones, those that still have to send their
+        // PUBREL, and those awaited without being stored
         if self.publish_send_max.is_some() {
-            let pending_pubrel = u16::try_from(self.pid_pubrel.len()).unwrap_or(u16::MAX);
-            self.publish_send_count = self.publish_send_count
-                .saturating_add(resent)
-                .saturating_add(pending_pubrel);
+            let awaited = self.pid_puback.len()
+                + self.pid_pubrec.len()
+                + self.pid_pubcomp.len()
+                + self.pid_pubrel.len();
+            self.publish_send_count = u16::try_from(awaited).unwrap_or(u16::MAX);
         }
 
         events
